@@ -1400,6 +1400,16 @@ func main() {
 	writeIfChanged(filepath.Join(*out, "RowFacts.lean"), rf.text)
 	fmt.Printf("Gen/RowFacts.lean: %d functions of row.go, %d unknown in [%s]\n", rf.nFuncs, rf.nU, strings.Join(rf.where, " "))
 	// END row facts
+	// BEGIN jl facts
+	if jlp, err := loadPkg(filepath.Join(*repo, "cmd/jl"), "github.com/cgi-fr/jsonline/cmd/jl"); err == nil {
+		jf := jlFactsOf(jlp)
+		writeIfChanged(filepath.Join(*out, "JlFacts.lean"), jf.text)
+		fmt.Printf("Gen/JlFacts.lean: %d functions of cmd/jl, %d unknown in [%s]\n", jf.nF, jf.nU, strings.Join(jf.where, " "))
+		if os.Getenv("JLDEBUG") != "" {
+			fmt.Print(jlDump(jlp))
+		}
+	}
+	// END jl facts
 
 	if mp, err := loadPkg(filepath.Join(*repo, "cmd/jl"), "github.com/cgi-fr/jsonline/cmd/jl"); err == nil {
 		fr, tr := registries(mp)
